@@ -2,4 +2,6 @@ package main
 
 // genMore is extended as further fact tables are added (builder tables, filters,
 // error sites, map ranges, lock facts).
-func genMore() {}
+func genMore() {
+	genLockFacts()
+}
